@@ -46,12 +46,12 @@ def options_strategy():
             o["accel"] = [a, {k: draw(st.integers(lo, hi)) for k, (lo, hi) in g.ACCELERATION_ALGORITHMS[a].items()}]
         if draw(st.integers(0, 4)) == 0:
             o["itermax"] = draw(st.integers(3, 12))
-        mode = draw(st.sampled_from(["plain", "plain", "faults", "faults", "dynamic"]))
+        mode = draw(st.sampled_from(["plain", "faults", "faults", "faults", "dynamic", "dynamic"]))
         if mode == "faults":
             n = draw(st.integers(1, 3))
             f = set()
             for _ in range(n):
-                k = draw(st.integers(0, 30))
+                k = draw(st.integers(0, 20))
                 f.add(k)
                 if draw(st.booleans()):
                     f.add(k + 1)  # nested failure: the first half step fails again
